@@ -2,16 +2,16 @@ SPECIFICATION SpecF
 CONSTANTS
   Types <- TypesExec
   Roots <- RootsExec
-  MaxSel = 9
-  MaxDepth = 4
-  MaxFrags = 1
+  MaxSel = 3
+  MaxDepth = 3
+  MaxFrags = 0
   MaxOps = 1
-  OpTypes = {"query", "mutation"}
-  FieldAlpha <- AlphaAllF
+  OpTypes = {"query"}
+  FieldAlpha <- AlphaGdF
   Aliases = {"", "z"}
-  Conds = {"", "T", "P", "A", "B", "C", "U"}
+  Conds = {""}
   DirOpts <- NoDirs
-  ArgOpts <- ArgOptsStdF
+  ArgOpts <- ArgOptsFail
   VarTypes <- VarTypesStd
   VarVals <- VarValsStd
   MaxOverlay = 0
